@@ -35,10 +35,12 @@ def demo(wt, d):
         return rc2 == 0, "cargo run in demo/: exit %d %s" % (rc2, out.strip()[-160:].replace("\n", " "))
     return None, "no demonstration found"
 
+ROOT = os.environ.get("MUT_ROOT", "/tmp/mut")
+SUFFIX = dict(zip("AB", os.environ.get("MUT_SUFFIX", "AB")))
 for pid in sys.argv[1:]:
-    wt = "/tmp/mut/%s" % pid
+    wt = "%s/%s" % (ROOT, pid)
     for ab in "AB":
-        d = "/tmp/mut/%s.out/%s" % (pid, ab)
+        d = "%s/%s.out/%s" % (ROOT, pid, ab)
         if not os.path.exists(os.path.join(d, "patch.diff")):
             print(pid, ab, "missing"); continue
         sh("git checkout -- . && git clean -fdq", wt)
@@ -53,7 +55,7 @@ for pid in sys.argv[1:]:
         print(pid, ab, "suite_ok=%s demo_clean=%s demo_mutated=%s -> %s" % (ok, clean_pass, mut_pass, "CONFIRMED" if confirmed else "REJECTED"))
         if not confirmed:
             print("   ", suite, "|", how0, "|", how1); continue
-        dst = os.path.join(VERIF, "seeded", "%s%s" % (pid, ab))
+        dst = os.path.join(VERIF, "seeded", "%s%s" % (pid, SUFFIX[ab]))
         os.makedirs(dst, exist_ok=True)
         for f in os.listdir(d):
             if os.path.isfile(os.path.join(d, f)): shutil.copy(os.path.join(d, f), dst)
